@@ -8,6 +8,7 @@ package c13
 import (
 	"encoding/json"
 	"fmt"
+	"math"
 	"os"
 	"runtime"
 	"strings"
@@ -212,7 +213,11 @@ func runScenario(sc scen) (fs []tmon.Finding, nFut int, stats map[string]int64, 
 				defer wg.Done()
 				switch el {
 				case "far":
-					mon.Call(30*time.Second, 0, true)
+					if (len(sc.Order)+sc.Callers+sc.MaxWorkers)%2 == 0 {
+						mon.Call(30*time.Second, 0, true)
+					} else {
+						mon.Call(time.Duration(math.MaxInt64)-time.Duration(sc.MaxWorkers), 0, true) // "never"
+					}
 				case "near":
 					mon.Call(20*time.Millisecond, 0, false)
 				case "burst":
@@ -398,7 +403,7 @@ func TestChild(t *testing.T) {
 func TestCheck(t *testing.T) {
 	run := report.New("C13", "exploration")
 	defer run.Finish(t)
-	run.Rule("arrival patterns: permutations of {far future 30 s, near future 20 ms, burst of 50 futures (> pool), cancel the head of the queue, idle gap of 2.5 idle timeouts} (24 orders quick, all 120 thorough) x 1 or 4 concurrent callers x idle timeout 20 ms / 200 ms (/ 5 s thorough) x pool limit 1/2/10, callbacks return at once. Monitors: every non-cancelled future starts (drain detector on hook state; pending>0 with no worker is final), lateness <= 1.5 s, hook invariant pending>0 => workers>=1 sampled under the package lock, workers reach 0 within (limit+3) idle periods + 2 s and the goroutine census agrees, a Call after the wind-down fires again; contended wind-down rounds: a far future pending, a blocking burst grows the pool to its limit, four goroutines hammer the package lock while the surplus workers leave - one worker must stay. evaluations = futures; distinct = distinct scenario configurations")
+	run.Rule("arrival patterns: permutations of {far future (30 s, or 'never' = MaxInt64), near future 20 ms, burst of 50 futures (> pool), cancel the head of the queue, idle gap of 2.5 idle timeouts} (24 orders quick, all 120 thorough) x 1 or 4 concurrent callers x idle timeout 20 ms / 200 ms (/ 5 s thorough) x pool limit 1/2/10, callbacks return at once. Monitors: every non-cancelled future starts (drain detector on hook state; pending>0 with no worker is final), lateness <= 1.5 s, hook invariant pending>0 => workers>=1 sampled under the package lock, workers reach 0 within (limit+3) idle periods + 2 s and the goroutine census agrees, a Call after the wind-down fires again; contended wind-down rounds: a far future pending, a blocking burst grows the pool to its limit, four goroutines hammer the package lock while the surplus workers leave - one worker must stay. evaluations = futures; distinct = distinct scenario configurations")
 	run.Assume("lateness and wind-down bounds are two orders of magnitude above the healthy values and guarded by a stall canary (repeat up to 3 times, then inconclusive)")
 
 	if p := os.Getenv("VERIF_REPLAY"); p != "" {
